@@ -195,8 +195,15 @@ def _stable(c):
     return [('not-notified-yet', c.h('$notified') == c.h0('$notified')), ('generation', c.h('_generation') == c.h0('_generation'))]
 
 
+def _pairs(c):
+    """the local list `lookups` holds (container, key) pairs"""
+    j = z3.Int('lp_j')
+    s = c.h('$list')[c.l.lookups]
+    return z3.ForAll([j], z3.Implies(z3.And(0 <= j, j < L(s)), z3.And(is_seq(s[j]), L(unbox_seq(s[j])) == 2)), patterns=[s[j]])
+
+
 def _quiet(c):
-    return _stable(c) + [('nothing-touched-yet', old_containers_untouched(c))]
+    return _stable(c) + [('nothing-touched-yet', old_containers_untouched(c)), ('lookups-holds-pairs', _pairs(c))]
 
 
 reg.add(Proc(
